@@ -1,1 +1,330 @@
-// placeholder
+//! A recording serde::Serializer: walks any `Serialize` value and keeps everything a JSON consumer
+//! would see — including what JSON text hides (duplicate keys survive, NaN/inf are not turned into null).
+use serde::ser::{self, Serialize};
+use std::fmt;
+
+#[derive(Clone, Debug, PartialEq)]
+pub enum V {
+    Null,
+    Bool(bool),
+    I(i64),
+    U(u64),
+    F(f64),
+    S(String),
+    Seq(Vec<V>),
+    Map(Vec<(String, V)>),
+}
+
+#[derive(Debug)]
+pub struct RecErr(pub String);
+impl fmt::Display for RecErr {
+    fn fmt(&self, f: &mut fmt::Formatter<'_>) -> fmt::Result {
+        write!(f, "{}", self.0)
+    }
+}
+impl std::error::Error for RecErr {}
+impl ser::Error for RecErr {
+    fn custom<T: fmt::Display>(msg: T) -> Self {
+        RecErr(msg.to_string())
+    }
+}
+
+pub fn record<T: Serialize + ?Sized>(v: &T) -> Result<V, RecErr> {
+    v.serialize(Rec)
+}
+
+#[derive(Clone, Debug)]
+pub enum Leaf {
+    Null,
+    Bool(bool),
+    Num(f64),
+    Int(i128),
+    Str(String),
+}
+
+#[derive(Default, Debug)]
+pub struct Flat {
+    /// (path, last key, leaf)
+    pub leaves: Vec<(String, String, Leaf)>,
+    pub dup_keys: Vec<String>,
+    pub nonfinite: Vec<String>,
+}
+
+pub fn flatten(v: &V) -> Flat {
+    let mut f = Flat::default();
+    walk(v, "", "", &mut f);
+    f
+}
+
+fn walk(v: &V, path: &str, key: &str, f: &mut Flat) {
+    match v {
+        V::Null => f.leaves.push((path.into(), key.into(), Leaf::Null)),
+        V::Bool(b) => f.leaves.push((path.into(), key.into(), Leaf::Bool(*b))),
+        V::I(i) => f.leaves.push((path.into(), key.into(), Leaf::Int(*i as i128))),
+        V::U(u) => f.leaves.push((path.into(), key.into(), Leaf::Int(*u as i128))),
+        V::F(x) => {
+            if !x.is_finite() {
+                f.nonfinite.push(format!("{path} = {x}"));
+            }
+            f.leaves.push((path.into(), key.into(), Leaf::Num(*x)))
+        }
+        V::S(s) => f.leaves.push((path.into(), key.into(), Leaf::Str(s.clone()))),
+        V::Seq(xs) => {
+            for (i, x) in xs.iter().enumerate() {
+                walk(x, &format!("{path}[{i}]"), key, f);
+            }
+        }
+        V::Map(kv) => {
+            let mut seen = std::collections::HashSet::new();
+            for (k, x) in kv {
+                if !seen.insert(k.as_str()) {
+                    f.dup_keys.push(format!("{path}.{k}"));
+                }
+                walk(x, &format!("{path}.{k}"), k, f);
+            }
+        }
+    }
+}
+
+impl V {
+    pub fn get(&self, key: &str) -> Option<&V> {
+        match self {
+            V::Map(kv) => kv.iter().find(|(k, _)| k == key).map(|(_, v)| v),
+            _ => None,
+        }
+    }
+    pub fn as_str(&self) -> Option<&str> {
+        match self {
+            V::S(s) => Some(s),
+            _ => None,
+        }
+    }
+    pub fn as_f64(&self) -> Option<f64> {
+        match self {
+            V::F(x) => Some(*x),
+            V::I(i) => Some(*i as f64),
+            V::U(u) => Some(*u as f64),
+            _ => None,
+        }
+    }
+    pub fn is_null(&self) -> bool {
+        matches!(self, V::Null)
+    }
+    pub fn keys(&self) -> Vec<String> {
+        match self {
+            V::Map(kv) => kv.iter().map(|(k, _)| k.clone()).collect(),
+            _ => vec![],
+        }
+    }
+}
+
+struct Rec;
+
+pub struct SeqRec(Vec<V>, Option<&'static str>);
+pub struct MapRec(Vec<(String, V)>, Option<String>, Option<&'static str>);
+
+fn key_of(v: V) -> Result<String, RecErr> {
+    match v {
+        V::S(s) => Ok(s),
+        V::I(i) => Ok(i.to_string()),
+        V::U(u) => Ok(u.to_string()),
+        V::Bool(b) => Ok(b.to_string()),
+        other => Err(RecErr(format!("key must be a string, got {other:?}"))),
+    }
+}
+
+impl ser::Serializer for Rec {
+    type Ok = V;
+    type Error = RecErr;
+    type SerializeSeq = SeqRec;
+    type SerializeTuple = SeqRec;
+    type SerializeTupleStruct = SeqRec;
+    type SerializeTupleVariant = SeqRec;
+    type SerializeMap = MapRec;
+    type SerializeStruct = MapRec;
+    type SerializeStructVariant = MapRec;
+
+    fn serialize_bool(self, v: bool) -> Result<V, RecErr> {
+        Ok(V::Bool(v))
+    }
+    fn serialize_i8(self, v: i8) -> Result<V, RecErr> {
+        Ok(V::I(v as i64))
+    }
+    fn serialize_i16(self, v: i16) -> Result<V, RecErr> {
+        Ok(V::I(v as i64))
+    }
+    fn serialize_i32(self, v: i32) -> Result<V, RecErr> {
+        Ok(V::I(v as i64))
+    }
+    fn serialize_i64(self, v: i64) -> Result<V, RecErr> {
+        Ok(V::I(v))
+    }
+    fn serialize_u8(self, v: u8) -> Result<V, RecErr> {
+        Ok(V::U(v as u64))
+    }
+    fn serialize_u16(self, v: u16) -> Result<V, RecErr> {
+        Ok(V::U(v as u64))
+    }
+    fn serialize_u32(self, v: u32) -> Result<V, RecErr> {
+        Ok(V::U(v as u64))
+    }
+    fn serialize_u64(self, v: u64) -> Result<V, RecErr> {
+        Ok(V::U(v))
+    }
+    fn serialize_f32(self, v: f32) -> Result<V, RecErr> {
+        Ok(V::F(v as f64))
+    }
+    fn serialize_f64(self, v: f64) -> Result<V, RecErr> {
+        Ok(V::F(v))
+    }
+    fn serialize_char(self, v: char) -> Result<V, RecErr> {
+        Ok(V::S(v.to_string()))
+    }
+    fn serialize_str(self, v: &str) -> Result<V, RecErr> {
+        Ok(V::S(v.to_string()))
+    }
+    fn serialize_bytes(self, v: &[u8]) -> Result<V, RecErr> {
+        Ok(V::Seq(v.iter().map(|b| V::U(*b as u64)).collect()))
+    }
+    fn serialize_none(self) -> Result<V, RecErr> {
+        Ok(V::Null)
+    }
+    fn serialize_some<T: ?Sized + Serialize>(self, v: &T) -> Result<V, RecErr> {
+        v.serialize(Rec)
+    }
+    fn serialize_unit(self) -> Result<V, RecErr> {
+        Ok(V::Null)
+    }
+    fn serialize_unit_struct(self, _: &'static str) -> Result<V, RecErr> {
+        Ok(V::Null)
+    }
+    fn serialize_unit_variant(self, _: &'static str, _: u32, variant: &'static str) -> Result<V, RecErr> {
+        Ok(V::S(variant.to_string()))
+    }
+    fn serialize_newtype_struct<T: ?Sized + Serialize>(self, _: &'static str, v: &T) -> Result<V, RecErr> {
+        v.serialize(Rec)
+    }
+    fn serialize_newtype_variant<T: ?Sized + Serialize>(self, _: &'static str, _: u32, variant: &'static str, v: &T) -> Result<V, RecErr> {
+        Ok(V::Map(vec![(variant.to_string(), v.serialize(Rec)?)]))
+    }
+    fn serialize_seq(self, _: Option<usize>) -> Result<SeqRec, RecErr> {
+        Ok(SeqRec(vec![], None))
+    }
+    fn serialize_tuple(self, _: usize) -> Result<SeqRec, RecErr> {
+        Ok(SeqRec(vec![], None))
+    }
+    fn serialize_tuple_struct(self, _: &'static str, _: usize) -> Result<SeqRec, RecErr> {
+        Ok(SeqRec(vec![], None))
+    }
+    fn serialize_tuple_variant(self, _: &'static str, _: u32, variant: &'static str, _: usize) -> Result<SeqRec, RecErr> {
+        Ok(SeqRec(vec![], Some(variant)))
+    }
+    fn serialize_map(self, _: Option<usize>) -> Result<MapRec, RecErr> {
+        Ok(MapRec(vec![], None, None))
+    }
+    fn serialize_struct(self, _: &'static str, _: usize) -> Result<MapRec, RecErr> {
+        Ok(MapRec(vec![], None, None))
+    }
+    fn serialize_struct_variant(self, _: &'static str, _: u32, variant: &'static str, _: usize) -> Result<MapRec, RecErr> {
+        Ok(MapRec(vec![], None, Some(variant)))
+    }
+}
+
+impl SeqRec {
+    fn finish(self) -> Result<V, RecErr> {
+        match self.1 {
+            Some(var) => Ok(V::Map(vec![(var.to_string(), V::Seq(self.0))])),
+            None => Ok(V::Seq(self.0)),
+        }
+    }
+}
+impl ser::SerializeSeq for SeqRec {
+    type Ok = V;
+    type Error = RecErr;
+    fn serialize_element<T: ?Sized + Serialize>(&mut self, v: &T) -> Result<(), RecErr> {
+        self.0.push(v.serialize(Rec)?);
+        Ok(())
+    }
+    fn end(self) -> Result<V, RecErr> {
+        self.finish()
+    }
+}
+impl ser::SerializeTuple for SeqRec {
+    type Ok = V;
+    type Error = RecErr;
+    fn serialize_element<T: ?Sized + Serialize>(&mut self, v: &T) -> Result<(), RecErr> {
+        self.0.push(v.serialize(Rec)?);
+        Ok(())
+    }
+    fn end(self) -> Result<V, RecErr> {
+        self.finish()
+    }
+}
+impl ser::SerializeTupleStruct for SeqRec {
+    type Ok = V;
+    type Error = RecErr;
+    fn serialize_field<T: ?Sized + Serialize>(&mut self, v: &T) -> Result<(), RecErr> {
+        self.0.push(v.serialize(Rec)?);
+        Ok(())
+    }
+    fn end(self) -> Result<V, RecErr> {
+        self.finish()
+    }
+}
+impl ser::SerializeTupleVariant for SeqRec {
+    type Ok = V;
+    type Error = RecErr;
+    fn serialize_field<T: ?Sized + Serialize>(&mut self, v: &T) -> Result<(), RecErr> {
+        self.0.push(v.serialize(Rec)?);
+        Ok(())
+    }
+    fn end(self) -> Result<V, RecErr> {
+        self.finish()
+    }
+}
+impl MapRec {
+    fn finish(self) -> Result<V, RecErr> {
+        match self.2 {
+            Some(var) => Ok(V::Map(vec![(var.to_string(), V::Map(self.0))])),
+            None => Ok(V::Map(self.0)),
+        }
+    }
+}
+impl ser::SerializeMap for MapRec {
+    type Ok = V;
+    type Error = RecErr;
+    fn serialize_key<T: ?Sized + Serialize>(&mut self, k: &T) -> Result<(), RecErr> {
+        self.1 = Some(key_of(k.serialize(Rec)?)?);
+        Ok(())
+    }
+    fn serialize_value<T: ?Sized + Serialize>(&mut self, v: &T) -> Result<(), RecErr> {
+        let k = self.1.take().ok_or_else(|| RecErr("value without key".into()))?;
+        self.0.push((k, v.serialize(Rec)?));
+        Ok(())
+    }
+    fn end(self) -> Result<V, RecErr> {
+        self.finish()
+    }
+}
+impl ser::SerializeStruct for MapRec {
+    type Ok = V;
+    type Error = RecErr;
+    fn serialize_field<T: ?Sized + Serialize>(&mut self, k: &'static str, v: &T) -> Result<(), RecErr> {
+        self.0.push((k.to_string(), v.serialize(Rec)?));
+        Ok(())
+    }
+    fn end(self) -> Result<V, RecErr> {
+        self.finish()
+    }
+}
+impl ser::SerializeStructVariant for MapRec {
+    type Ok = V;
+    type Error = RecErr;
+    fn serialize_field<T: ?Sized + Serialize>(&mut self, k: &'static str, v: &T) -> Result<(), RecErr> {
+        self.0.push((k.to_string(), v.serialize(Rec)?));
+        Ok(())
+    }
+    fn end(self) -> Result<V, RecErr> {
+        self.finish()
+    }
+}
